@@ -422,7 +422,7 @@ func (c *collector) Call(s *slip.Scope, args slip.List, depth int) slip.Object {
 	return nil
 }
 
-var fronts = []string{"ReadStream", "ReadStreamOne", "ReadStreamEach", "ReadStreamPush", "cl:read-seek", "cl:read-all-seek", "cl:read-all-nonseek", "swank:wire"}
+var fronts = []string{"ReadStream", "ReadStreamOne", "ReadStreamEach", "ReadStreamPush", "cl:read-seek", "cl:read-all-seek", "cl:read-all-nonseek", "cl:peek+read-nonseek-safe", "swank:wire"}
 
 func scopeFor(c *Case) *slip.Scope {
 	s := slip.NewScope()
@@ -511,6 +511,22 @@ func runFront(c *Case, front string, p Plan) (outcome, *source) {
 			s.Let("sim-stream", so)
 			v := slip.ReadString("(read sim-stream)", slip.NewScope()).Eval(s, nil)
 			return []slip.Object{v}, src.off
+		case "cl:peek+read-nonseek-safe":
+			s.Let("sim-stream", slip.NewInputStream(rd))
+			peek := slip.ReadString("(peek-char t sim-stream nil nil)", slip.NewScope())
+			code := slip.ReadString("(read sim-stream)", slip.NewScope())
+			var all []slip.Object
+			for i := 0; i < 10000; i++ {
+				if peek.Eval(s, nil) == nil { // skips white space; nil at end of file
+					break
+				}
+				v, eof := readOrEOF(code, s)
+				if eof {
+					break
+				}
+				all = append(all, v)
+			}
+			return all, 0
 		case "cl:read-all-seek", "cl:read-all-nonseek":
 			if front == "cl:read-all-seek" {
 				s.Let("sim-stream", &seekStreamObj{streamObj: streamObj{Reader: src}, sk: src})
@@ -675,6 +691,7 @@ func (e *engine) Execute(raw json.RawMessage) (vd harness.Verdict) {
 	vd.Faults = map[string]int{}
 	vd.Probes = map[string]int{}
 	refs := map[string]outcome{}
+	defer func() { refs = nil }()
 	for _, f := range append([]string{"string:one-at-a-time"}, fronts...) {
 		refs[f] = reference(&c, f)
 	}
@@ -692,6 +709,36 @@ func (e *engine) Execute(raw json.RawMessage) (vd harness.Verdict) {
 		ref := refs[front]
 		if ref.kind == "go-panic" {
 			return nil
+		}
+		if front == "cl:peek+read-nonseek-safe" {
+			// The part of the non-seekable cl:read path that works on the
+			// unchanged tree (see known finding C02-read-nonseekable): complete
+			// texts whose top-level forms all end with their own closing
+			// character, delivered without zero-length reads and with EOF
+			// after the last data. Each read is preceded by a peek-char, so
+			// the stream's one-character push-back is exercised.
+			if ref.kind != "objects" || len(ref.raw) == 0 || p.EOFWithData || p.ErrAfter >= 0 {
+				return nil
+			}
+			for _, k := range p.Sizes {
+				if k == 0 {
+					return nil
+				}
+			}
+			for _, o := range ref.raw {
+				switch to := o.(type) {
+				case slip.List:
+					if len(to) == 0 {
+						return nil
+					}
+				case slip.String, *slip.Vector:
+				default:
+					return nil
+				}
+			}
+			if strings.ContainsAny(string(c.Text), "'`,;#|\\") {
+				return nil // prefixes and comments confuse the byte-at-a-time reader
+			}
 		}
 		got, src := runFront(&c, front, p)
 		vd.Evals++
